@@ -3,17 +3,129 @@
     model in theories/Recv.v, invariants and preconditions in theories/RecvSpec.v). *)
 From Verif Require Import GoSem Recv RecvSpec RecvProofs.
 
+(** ** One preservation lemma per operation (representation invariant, no panic) *)
+
 (** seqCounters.add: outside the two defect situations (a jump of a full window, a number
-    between two stored numbers) it never panics, keeps the representation invariant and changes
-    the live counters exactly as the list-level specification says. *)
+    between two stored numbers) it never panics, keeps the invariant and changes the live
+    counters exactly as the list-level specification [spec_add] says. *)
 Theorem C17_counters_add_refines : forall s n,
   sc_inv s -> sc_add_pre s n = true ->
   exists s', sc_add s n = Ok s' /\ sc_inv s' /\ sc_live s' = spec_add (sc_w s) (sc_live s) n /\ sc_w s' = sc_w s.
 Proof. exact sc_add_spec. Qed.
 Print Assumptions C17_counters_add_refines.
 
-(** Full window [1,2,3,4], then number 100: slice bounds panic (in production in the channel
-    goroutine, which nothing recovers). *)
+Theorem C17_counters_drop_inv : forall s n,
+  sc_inv s -> exists s', sc_drop s n = Ok s' /\ sc_inv s' /\ sc_w s' = sc_w s /\ sc_n s' <= sc_n s.
+Proof. exact sc_drop_inv. Qed.
+Print Assumptions C17_counters_drop_inv.
+
+(** resize is safe when the new window is not below the number of live counters *)
+Theorem C17_counters_resize_inv : forall s nw,
+  sc_inv s -> 0 < nw < two32 -> sc_n s <= nw ->
+  exists s', sc_resize s nw = Ok s' /\ sc_inv s' /\ sc_live s' = sc_live s /\ sc_w s' = nw /\ sc_n s' = sc_n s.
+Proof. exact sc_resize_inv. Qed.
+Print Assumptions C17_counters_resize_inv.
+
+Theorem C17_counters_reads_safe : forall s k m,
+  sc_inv s -> (exists r, sc_newFullCounter s k m = Ok r) /\ (exists r, sc_fullRange s k = Ok r).
+Proof. intros s k m I. split; [exact (sc_newFull_ok s k m I)|exact (sc_fullRange_ok s k I)]. Qed.
+Print Assumptions C17_counters_reads_safe.
+
+(** segDataBuffer.add never panics under the invariant and refines the list-level [spec_badd]:
+    rejected if not increasing, appended if there is room, otherwise the items that fall out of
+    the window of the new number are discarded. *)
+Theorem C17_buffer_add_refines : forall b it,
+  sdb_inv b -> item_ok it ->
+  exists b' ok, sdb_add b it = Ok (b', ok) /\ sdb_inv b' /\ (sdb_live b', ok) = spec_badd (b_size b) (sdb_live b) it
+                /\ b_size b' = b_size b.
+Proof. exact sdb_add_spec. Qed.
+Print Assumptions C17_buffer_add_refines.
+
+Theorem C17_buffer_resize_inv : forall b nw,
+  sdb_inv b -> 0 < nw < two32 -> b_n b <= nw ->
+  exists b', sdb_resize b nw = Ok b' /\ sdb_inv b' /\ sdb_live b' = sdb_live b /\ b_size b' = nw /\ b_n b' = b_n b.
+Proof. exact sdb_resize_inv. Qed.
+Print Assumptions C17_buffer_resize_inv.
+
+Theorem C17_buffer_drop_inv : forall b n,
+  sdb_inv b -> exists b', sdb_dropSeqNr b n = Ok b' /\ sdb_inv b' /\ b_size b' = b_size b /\ b_n b' <= b_n b.
+Proof. exact sdb_dropSeqNr_inv. Qed.
+Print Assumptions C17_buffer_drop_inv.
+
+Theorem C17_buffer_unshift_inv : forall b,
+  sdb_inv b -> exists b' uns, sdb_removeUnshifted b = Ok (b', uns) /\ sdb_inv b' /\ b_size b' = b_size b /\ b_n b' <= b_n b.
+Proof. exact sdb_removeUnshifted_inv. Qed.
+Print Assumptions C17_buffer_unshift_inv.
+
+(** getItem only returns stored items with the requested number *)
+Theorem C17_buffer_get : forall b n,
+  sdb_inv b -> exists r, sdb_getItem b n = Ok r /\
+                         match r with Some it => In it (sdb_live b) /\ i_seq it = n | None => True end.
+Proof. exact sdb_getItem_ok. Qed.
+Print Assumptions C17_buffer_get.
+
+(** segmentTimelineGenerator.start is safe when the new window does not cut into what is stored *)
+Theorem C17_gen_start_inv : forall g nw sh,
+  gen_inv g -> gen_resize_pre g nw = true ->
+  exists g', gen_start g nw sh = Ok g' /\ gen_inv g' /\ g_latest g' = g_latest g /\ g_w g' = nw
+             /\ g_started g' = true /\ g_shifted g' = sh.
+Proof. exact gen_start_inv. Qed.
+Print Assumptions C17_gen_start_inv.
+
+(** channel.receivedSegData for one complete segment: under [chan_pre] (which names the defect
+    situations: sc_jump, sc_between, a shrinking start, a track without segments at start, a zero
+    duration) no panic, the invariant is kept, and an MPD is published only above latestSeqNr. *)
+Theorem C17_received_safe : forall c u,
+  chan_inv c -> chan_pre c u = true ->
+  exists o, chan_received c (up_name u) (up_item u) = Ok o /\ chan_inv (o_chan o)
+    /\ match o_pub o with
+       | Some pub => g_latest (ch_gen c) < p_last pub /\ g_latest (ch_gen (o_chan o)) = p_last pub
+       | None => g_latest (ch_gen (o_chan o)) = g_latest (ch_gen c)
+       end.
+Proof. exact chan_received_safe. Qed.
+Print Assumptions C17_received_safe.
+
+(** ** Every upload sequence (induction over fold_left) *)
+Theorem C17_safe_inv : forall ups c,
+  chan_inv c -> run_pre c ups -> exists c', chan_run c ups = Ok c' /\ chan_inv c'.
+Proof. exact chan_run_safe. Qed.
+Print Assumptions C17_safe_inv.
+
+(** a new channel with any registered tracks satisfies the invariant *)
+Theorem C17_init_inv : forall asets tsbd tracks, chan_inv (chan_with asets tsbd tracks).
+Proof. exact chan_with_inv. Qed.
+Print Assumptions C17_init_inv.
+
+(** latestSeqNr never decreases; the newest numbers of the MPDs written during a run are strictly
+    increasing, each above latestSeqNr at the time, and latestSeqNr ends at the last of them. *)
+Theorem C17_latest_monotone : forall ups c,
+  chan_inv c -> run_pre c ups ->
+  exists pubs c', chan_trace c ups = Ok (pubs, c') /\ chan_inv c'
+    /\ incr (g_latest (ch_gen c) :: pub_lasts pubs) = true
+    /\ g_latest (ch_gen c') = last (g_latest (ch_gen c) :: pub_lasts pubs) 0.
+Proof. exact chan_trace_monotone. Qed.
+Print Assumptions C17_latest_monotone.
+
+(** window bounds are part of the invariant: 0 <= _nrCounters <= windowSize = len(counters),
+    0 <= _nrItems <= size = len(items) = the generator's window, for every track *)
+Theorem C17_window : forall c,
+  chan_inv c ->
+  let g := ch_gen c in
+  0 <= sc_n (g_cnt g) <= sc_w (g_cnt g) /\ sc_w (g_cnt g) = g_w g /\ slen (sc_sl (g_cnt g)) = g_w g /\
+  Forall (fun kb => 0 <= b_n (snd kb) <= b_size (snd kb) /\ b_size (snd kb) = g_w g /\ slen (b_sl (snd kb)) = g_w g) (g_bufs g).
+Proof. exact chan_window. Qed.
+Print Assumptions C17_window.
+
+(** ** Refutations (each replayed on the real structs by the harness) *)
+
+(** C17_safe as stated in the property (no arrival order stops the receiver) is false:
+    one video track, window 3, numbers 1,2,3 then 100: slice bounds panic in the channel goroutine *)
+Theorem C17_safe_refuted :
+  exists c ups, chan_inv c /\ chan_run c ups = Panic "seqCounters.add:slice".
+Proof. exact safe_refuted. Qed.
+Print Assumptions C17_safe_refuted.
+
+(** Full window [1,2,3,4], then number 100 *)
 Theorem C17_jump_refuted :
   exists s n, sc_adds (sc_new 4) [1; 2; 3; 4] = Ok s /\ sc_inv s /\ sc_jump s n = true /\
               sc_add s n = Panic "seqCounters.add:slice".
@@ -27,8 +139,49 @@ Theorem C17_counters_refine_refuted :
 Proof. exact counters_refine_refuted. Qed.
 Print Assumptions C17_counters_refine_refuted.
 
+(** ... and with three entries it destroys the ordering (6 into [5,7,9] gives [6,7,7]) *)
+Theorem C17_insert_breaks_inv_refuted : exists s n s', sc_inv s /\ sc_add s n = Ok s' /\ ~ sc_inv s'.
+Proof. exact counters_insert_breaks_inv. Qed.
+Print Assumptions C17_insert_breaks_inv_refuted.
+
+(** segDataBuffer.resize to a smaller size keeps c.size: the next add indexes past len *)
+Theorem C17_shrink_refuted :
+  exists b b', sdb_inv b /\ sdb_resize b 3 = Ok b' /\ b_size b' = 8 /\ slen (b_sl b') = 3 /\ b_n b' = 3 /\
+               sdb_add b' (mkItem 6 12000 2000 false) = Panic "segDataBuffer.add:index".
+Proof. exact shrink_refuted. Qed.
+Print Assumptions C17_shrink_refuted.
+
 Theorem C17_shrink_counters_refuted :
   exists s s', sc_inv s /\ sc_resize s 3 = Ok s' /\ sc_n s' = 5 /\ slen (sc_sl s') = 3 /\
                sc_add s' 6 = Panic "seqCounters.add:index".
 Proof. exact shrink_counters_refuted. Qed.
 Print Assumptions C17_shrink_counters_refuted.
+
+(** a track that delivers its first segment after the start is never required: all preconditions
+    hold, the MPD lists 1..2, the third registered track has no segment at all *)
+Theorem C17_late_track_refuted :
+  exists c ups pubs c',
+    chan_inv c /\ run_pre c ups /\ chan_trace c ups = Ok (pubs, c') /\
+    last pubs None = Some (mkPub 1 2 [[(180000, 180000, 1)]; [(180000, 180000, 1)]]) /\
+    find_track 2 (ch_tracks c') <> None /\ lookup 2 (g_bufs (ch_gen c')) = None.
+Proof. exact late_track_refuted. Qed.
+Print Assumptions C17_late_track_refuted.
+
+Theorem C17_start_nil_refuted :
+  exists c ups, chan_inv c /\ chan_run c ups = Panic "segDataBuffer.nrItems:nil".
+Proof. exact start_nil_refuted. Qed.
+Print Assumptions C17_start_nil_refuted.
+
+Theorem C17_start_div_refuted :
+  exists c ups, chan_inv c /\ chan_run c ups = Panic "channel.deriveAndSetBitrates:div".
+Proof. exact start_div_refuted. Qed.
+Print Assumptions C17_start_div_refuted.
+
+(** ** Non-vacuity: a run of two tracks with a gap and a duplicate satisfies every precondition and
+    publishes MPDs whose newest numbers are 2, 3, 5, 6 *)
+Example C17_example :
+  let c := chan_with [[0]; [1]] 30 [mkTrack 0 true true 90000; mkTrack 1 false true 90000] in
+  let ups := [up 0 1; up 1 1; up 1 2; up 0 2; up 0 3; up 1 3; up 1 3; up 0 5; up 1 5; up 0 6; up 1 6] in
+  run_pre c ups /\
+  exists pubs c', chan_trace c ups = Ok (pubs, c') /\ pub_lasts pubs = [2; 3; 5; 6].
+Proof. exact run_pre_example. Qed.
